@@ -280,13 +280,20 @@ package tracker
 //@ -- Config.Clone: fresh copies of the four id sets (nil stays nil); AutoLeave is not copied (callers set or require it false)
 
 //@ pred sameSet(a quorum.MajorityConfig, b quorum.MajorityConfig) := (forall id uint64 :: has(a, id) == has(b, id)) && len(a) == len(b) && ((a == nil) <==> (b == nil))
-//@ func tracker.Config.Clone$1
-//@   inline
+//@ -- the copying helper (a closure without captured variables) under its own contract: a fresh set with the same members, nil stays nil,
+//@ -- and no set that existed before is written
+//@ func tracker.Config.Clone$1 [C13]
+//@   ensures #copy [C13] sameSet(result, m) && (result != nil ==> fresh(result))
+//@   ensures #input-untouched [C13] allocframe("M$map[uint64]struct{}")
 //@   loop 1 invariant #copying mm != nil && fresh(mm) && len(mm) == iter && (forall id uint64 :: has(mm, id) <==> seen(id))
+//@   loop 1 invariant #frame frameexcept("M$map[uint64]struct{}", mm)
 //@ func tracker.Config.Clone [C13]
 //@   frame elems quorum.MajorityConfig:
 //@   requires c != nil
-//@   ensures #copies [C13] sameSet(result.Voters[0], c.Voters[0]) && sameSet(result.Voters[1], c.Voters[1]) && sameSet(result.Learners, c.Learners) && sameSet(result.LearnersNext, c.LearnersNext)
+//@   ensures #copies [C13] sameSet(result.Voters[0], c.Voters[0])
+//@   ensures #copies-outgoing [C13] sameSet(result.Voters[1], c.Voters[1])
+//@   ensures #copies-learners [C13] sameSet(result.Learners, c.Learners)
+//@   ensures #copies-learners-next [C13] sameSet(result.LearnersNext, c.LearnersNext)
 //@   ensures #fresh [C13] (result.Voters[0] != nil ==> fresh(result.Voters[0])) && (result.Voters[1] != nil ==> fresh(result.Voters[1]))
 //@        && (result.Learners != nil ==> fresh(result.Learners)) && (result.LearnersNext != nil ==> fresh(result.LearnersNext))
 //@   ensures #distinct [C13] (result.Voters[0] != result.Voters[1] || result.Voters[0] == nil) && (result.Voters[0] != result.Learners || result.Learners == nil)
